@@ -56,19 +56,21 @@ def build_overlay(workdir, harness_dir):
     """Overlay JSON: mask every upstream *_test.go of packages we inject into
     (they need mockery mocks that are not checked in) and add our files."""
     replace = {}
-    for root, _dirs, files in os.walk(OVERLAYS):
-        rel = os.path.relpath(root, OVERLAYS)
-        gofiles = [f for f in files if f.endswith(".go")]
-        if not gofiles:
-            continue
-        target = os.path.join(GOROOT_PKG, rel)
-        if not os.path.isdir(target):
-            continue
-        for f in os.listdir(target):
-            if f.endswith("_test.go"):
-                replace[os.path.join(target, f)] = ""
-        for f in gofiles:
-            replace[os.path.join(target, f)] = os.path.join(root, f)
+    roots = [OVERLAYS] + [r for r in os.environ.get("VERIF_EXTRA_OVERLAYS", "").split(":") if r]
+    for oroot in roots:
+        for root, _dirs, files in os.walk(oroot):
+            rel = os.path.relpath(root, oroot)
+            gofiles = [f for f in files if f.endswith(".go")]
+            if not gofiles:
+                continue
+            target = os.path.join(GOROOT_PKG, rel)
+            if not os.path.isdir(target):
+                continue
+            for f in os.listdir(target):
+                if f.endswith("_test.go"):
+                    replace[os.path.join(target, f)] = ""
+            for f in gofiles:
+                replace[os.path.join(target, f)] = os.path.join(root, f)
     path = os.path.join(workdir, "overlay.json")
     with open(path, "w") as fh:
         json.dump({"Replace": replace}, fh)
